@@ -52,29 +52,31 @@ example : (checkLinear 4 (fun _ => true)).verdict = true ∧
 /-- [AF] on failure `lastValid` is written with the fraction `(j*-1)/n` where `j*` is the LEAST
 invalid index: all `1 ≤ i < j*` are valid, `j*` is not; the indices asked are exactly `1..j*`; for
 `n ≥ 1`, `1 ≤ j* ≤ n`, i.e. numerator `0 ≤ j*-1 < n` (so the fraction lies in `[0,1)`,
-`linear_fraction_unit` below); for `n = 0` the numerator is `-1` (the excluded point `-1/0`).
+`linear_fraction_unit` below); for `n = 0` (zero-length motion, end state invalid) the fraction is `0`
+(since the F124 fix; `fraction_n0_old_fails` keeps the former `-1/0`).
 That `lastValid.first` is `interpolate(s1,s2,fraction)` is how the code computes it and is only
 compared (harness `lvs=eq`). -/
 theorem linear_lastValid (n : Nat) (v : Nat → Bool) (h : (checkLinear n v).verdict = false) :
     ∃ j, (checkLinear n v).failAt = some j ∧
-      (checkLinear n v).lastValid n = some ((j : Int) - 1, n) ∧
+      (checkLinear n v).lastValid n = some (fracOf j n) ∧
       v j = false ∧ (∀ i, 1 ≤ i → i < j → v i = true) ∧
-      (1 ≤ n → 1 ≤ j ∧ j ≤ n ∧ 0 ≤ fracNum j ∧ fracNum j < (n : Int) ∧
+      (1 ≤ n → fracOf j n = ((j : Int) - 1, n) ∧ 1 ≤ j ∧ j ≤ n ∧ 0 ≤ fracNum j ∧ fracNum j < (n : Int) ∧
         (checkLinear n v).queries = List.range' 1 j) ∧
-      (n = 0 → j = 0 ∧ fracNum j = -1) := by
+      (n = 0 → j = 0 ∧ fracOf j n = (0, 1)) := by
   rcases checkLinear_spec n v with ⟨_, e⟩ | ⟨j, hj, hlt, hjn, hj1, e⟩
   · rw [e] at h; simp at h
-  · refine ⟨j, by rw [e], by rw [e]; simp [Result.lastValid, fracNum], hj, hlt, ?_, ?_⟩
+  · refine ⟨j, by rw [e], by rw [e]; simp [Result.lastValid], hj, hlt, ?_, ?_⟩
     · intro hn
       have := hj1 hn
-      refine ⟨this, hjn, by unfold fracNum; omega, by unfold fracNum; omega, ?_⟩
+      have hn0 : n ≠ 0 := by omega
+      refine ⟨by simp [fracOf, hn0, fracNum], this, hjn, by unfold fracNum; omega, by unfold fracNum; omega, ?_⟩
       rw [e]; exact range'_one_snoc j this
     · intro h0
       have : j = 0 := by omega
-      subst this; exact ⟨rfl, rfl⟩
+      subst this; subst h0; exact ⟨rfl, rfl⟩
 
 example : (checkLinear 5 (fun j => j != 3 && j != 4)).lastValid 5 = some (2, 5) := by decide
-example : (checkLinear 0 (fun _ => false)).lastValid 0 = some (-1, 0) := by decide
+example : (checkLinear 0 (fun _ => false)).lastValid 0 = some (0, 1) := by decide
 
 /-- [AF] on success the caller's `lastValid` is not written (and every index `1..n` was asked, in order). -/
 theorem linear_success_untouched (n : Nat) (v : Nat → Bool)
@@ -88,19 +90,39 @@ theorem linear_success_untouched (n : Nat) (v : Nat → Bool)
 
 example : (checkLinear 3 (fun _ => true)).failAt = none := by decide
 
-/-- [EX] for `n ≥ 1` the reported fraction lies in `[0, 1)`. -/
-theorem linear_fraction_unit (n : Nat) (v : Nat → Bool) (hn : 1 ≤ n) (p : Int × Nat)
+/-- [EX] the reported fraction lies in `[0, 1)` — for EVERY `n` since the F124 fix (the former side
+condition `n ≥ 1` is gone: a zero-length motion with an invalid end state reports `0`). -/
+theorem linear_fraction_unit (n : Nat) (v : Nat → Bool) (p : Int × Nat)
     (h : (checkLinear n v).lastValid n = some p) :
     0 ≤ (p.1 : ℚ) / (p.2 : ℚ) ∧ (p.1 : ℚ) / (p.2 : ℚ) < 1 := by
   have hf : (checkLinear n v).verdict = false := by
     cases hv : (checkLinear n v).verdict with
     | false => rfl
     | true => rw [(linear_success_untouched n v hv).2.1] at h; simp at h
-  obtain ⟨j, _, h2, _, _, h5, _⟩ := linear_lastValid n v hf
-  obtain ⟨_, _, h6, h7, _⟩ := h5 hn
+  obtain ⟨j, _, h2, _, _, h5, h0⟩ := linear_lastValid n v hf
   rw [h2] at h
   cases h
-  exact frac_unit (fracNum j) n hn h6 h7
+  by_cases hn : 1 ≤ n
+  · obtain ⟨e, _, _, h6, h7, _⟩ := h5 hn
+    rw [e]
+    exact frac_unit (fracNum j) n hn h6 h7
+  · obtain ⟨_, e⟩ := h0 (by omega)
+    rw [e]; norm_num
+
+/-- F124 on the former code (`(double)(nd-1)/(double)nd` also for `nd = 0`): a zero-length motion with
+an invalid end state reported the fraction `-1/0` (`-inf` at `double`), outside `[0,1)`. -/
+theorem fraction_n0_old_fails :
+    ¬ ∀ (n : Nat) (v : Nat → Bool) (p : Int × Nat),
+        (checkLinear n v).lastValidOld n = some p → 0 ≤ p.1 ∧ p.1 < (p.2 : Int) := by
+  intro h
+  have := h 0 (fun _ => false) (-1, 0) (by decide)
+  simp at this
+
+/-- what held before: for `n ≥ 1` the former fraction is the present one. -/
+theorem fraction_old_partial (n : Nat) (v : Nat → Bool) (hn : 1 ≤ n) :
+    (checkLinear n v).lastValidOld n = (checkLinear n v).lastValid n := by
+  have hn0 : n ≠ 0 := by omega
+  simp [Result.lastValid, Result.lastValidOld, fracOf, hn0]
 
 example : (checkLinear 5 (fun j => j != 3)).lastValid 5 = some (2, 5) := by decide
 
@@ -543,6 +565,61 @@ theorem constrained_old_second_unwritten_fails :
   have := h false true 2 true (fun j => j != 1) (by decide)
   revert this
   decide
+
+/-- [AF] with the start state valid (the validator's precondition) the traversal of every constrained
+space reaches exactly when the projected one does, stores the same states, and asks the same
+indices after at most one look at the start state. -/
+theorem traverseG_valid_start (mode : TMode) (m : Nat) (geom : Bool) (v : Nat → Bool) (h0 : v 0 = true) :
+    (traverseG mode m geom v).1 = (traverse m geom v).1 ∧
+    (traverseG mode m geom v).2.2.1 = (traverse m geom v).2.2 ∧
+    (traverseG mode m geom v).2.2.2 = false ∧
+    ((traverseG mode m geom v).2.1 = (traverse m geom v).2.1 ∨
+      (traverseG mode m geom v).2.1 = 0 :: (traverse m geom v).2.1) := by
+  cases mode <;> simp only [traverseG, h0, Bool.not_true, Bool.false_eq_true, if_false]
+  · simp
+  · simp
+  · split <;> simp
+
+/-- [AF] for every constrained space (Projected, Atlas, TangentBundle), with the start state valid: both
+forms answer valid exactly when the end state satisfies the constraint, the traversal arrives and
+every visited state and the end state are valid; they agree; each call advances exactly one counter. -/
+theorem constrainedG_verdict (mode : TMode) (hasFirst sat : Bool) (m : Nat) (geom : Bool) (v : Nat → Bool)
+    (h0 : v 0 = true) :
+    ((constrained2G mode sat m geom v).verdict = true ↔ CAllValid sat m geom v) ∧
+    ((constrained3G mode hasFirst sat m geom v).verdict = true ↔ CAllValid sat m geom v) ∧
+    CCountsOnce (constrained2G mode sat m geom v) ∧ CCountsOnce (constrained3G mode hasFirst sat m geom v) := by
+  obtain ⟨h1, _, h3, _⟩ := traverseG_valid_start mode m geom v h0
+  rw [cAllValid_iff]
+  refine ⟨?_, ?_, ?_, ?_⟩
+  · unfold constrained2G
+    rw [h1]
+    cases hv : v (m + 1) <;> cases sat <;> cases ht : (traverse m geom v).1 <;> simp
+  · simp only [constrained3G, h3, h1, Bool.false_eq_true, if_false]
+    cases hv : v (m + 1) <;> cases sat <;> cases ht : (traverse m geom v).1 <;> simp
+  · unfold constrained2G CCountsOnce
+    rw [h1]
+    cases hv : v (m + 1) <;> cases sat <;> cases ht : (traverse m geom v).1 <;> simp
+  · simp only [constrained3G, h3, h1, Bool.false_eq_true, if_false, CCountsOnce]
+    cases hv : v (m + 1) <;> cases sat <;> cases ht : (traverse m geom v).1 <;> simp
+
+example : (constrained3G .atlas true true 3 true (fun j => j != 2)).queries = [0, 1, 2] ∧
+    (constrained3G .atlas true true 3 true (fun j => j != 0)).back = some 0 ∧
+    (constrained2G .tb true 0 true (fun j => j != 0)).verdict = true := by decide
+
+/-- [AF] an invalid START state (outside the precondition, but coded for): Atlas and TangentBundle reject
+the motion, count it, and hand back `(s1, ·)`; every call still advances exactly one counter. -/
+theorem constrainedG_invalid_start (mode : TMode) (hasFirst sat : Bool) (m : Nat) (geom : Bool) (v : Nat → Bool) :
+    CCountsOnce (constrained2G mode sat m geom v) ∧ CCountsOnce (constrained3G mode hasFirst sat m geom v) ∧
+    (mode = .atlas → v 0 = false → (constrained3G mode true sat m geom v).verdict = false ∧
+      (constrained3G mode true sat m geom v).back = some 0 ∧ (constrained3G mode true sat m geom v).queries = [0]) := by
+  refine ⟨?_, ?_, ?_⟩
+  · unfold constrained2G CCountsOnce
+    cases hv : v (m + 1) <;> cases sat <;> cases ht : (traverseG mode m geom v).1 <;> simp
+  · simp only [constrained3G, CCountsOnce]
+    cases he : (traverseG mode m geom v).2.2.2 <;> cases hv : v (m + 1) <;> cases sat <;>
+      cases ht : (traverseG mode m geom v).1 <;> simp
+  · rintro rfl hv
+    simp [constrained3G, traverseG, hv]
 
 /-- [AF] since fix F123 (03f44d7d7) the tangent-bundle wrapper keeps the validator's verdict and leaves
 the caller's `lastValid.first` alone after a valid motion, whatever it held. -/
